@@ -11,6 +11,13 @@ static bool feq(mpf_srcptr a, mpf_srcptr b) { int n = std::abs(a->_mp_size); ret
 static bool zeq(mpz_srcptr a, mpz_srcptr b) { return a->_mp_size == b->_mp_size && memcmp(a->_mp_d, b->_mp_d, zl(a) * 8) == 0; }
 
 // one set of objects: slot k of a class -> variable; several slots may share a variable (aliasing)
+// Read-only views of input-only operands: the limbs are copied into a page-aligned mapping that is then made PROT_READ (what mpz_roinit_n promises
+// to work for every input: "can be passed safely as input to any mpz function"), so that even a store that is undone before the call returns faults.
+#include <sys/mman.h>
+struct RoRegion { void* p = nullptr; size_t len = 0;
+  mp_limb_t* make(const mp_limb_t* src, size_t n) { len = ((n ? n : 1) * 8 + 4095) & ~(size_t)4095; p = mmap(nullptr, len, PROT_READ | PROT_WRITE, MAP_PRIVATE | MAP_ANONYMOUS, -1, 0); if (p == MAP_FAILED) { p = nullptr; return nullptr; }
+    /* place the limbs at the END of the mapping: a read past the operand faults as well */ mp_limb_t* d = (mp_limb_t*)((char*)p + len) - (n ? n : 1); if (n) memcpy(d, src, n * 8); else d[0] = 0; mprotect(p, len, PROT_READ); return d; }
+  ~RoRegion() { if (p) munmap(p, len); } };
 struct Objs {
   mpz_t z[5]; mpq_t q[4]; mpf_t f[4]; int nz = 0, nq = 0, nf = 0; gmp_randstate_t r; bool rinit = false;
   unsigned long fprec0[4] = {0, 0, 0, 0};   // original precision of variables lowered with mpf_set_prec_raw (restored before clearing, as the manual requires)
@@ -29,6 +36,11 @@ static void check(ByteSource& in, CaseInfo& ci) {
   // values per variable (outputs that are not aliased get junk)
   std::vector<Int> zv(nvz); std::vector<QV> qv(nvq); std::vector<FV> fv(nvf); static const unsigned PR[] = {64, 128, 192, 320};
   for (auto& x : zv) x = gz(in, cap); for (auto& x : qv) x = gq(in, std::min<size_t>(cap, 40)); for (auto& x : fv) x = gf(in, PR[in.range(0, 3)]);
+  // mid-size class: 90..260 limbs (REDC_n with odd and even sizes, Toom ranges): the generated cap rarely gets there; more often for the powm family,
+  // whose Montgomery code works on the caller's modulus; the exponent of mpz_powm stays small so that the table's cost cap admits the call
+  { bool powm = strncmp(op->name, "mpz_powm", 8) == 0; if (nvz > 0 && in.chance(powm ? 128 : 20)) { ci.label("mpz_operands_90_to_260_limbs");
+      for (auto& x : zv) { size_t n = (size_t)in.range(90, 260); Limbs l = limbs_nz(in, n); if (in.flag()) l[0] |= 1; x = Int::from_limbs(l.data(), n, in.chance(60)); }
+      if (strcmp(op->name, "mpz_powm") == 0 && vz[2] != vz[3]) zv[vz[2]] = gz(in, 2).abs(); } }
   if (strcmp(op->name, "mpf_swap") != 0) for (auto& x : fv) if (x.prec > 64 && in.chance(60)) { x.rawlow = 64 * (unsigned)in.range(1, x.prec / 64 - 1); ci.label("mpf_operand_longer_than_prec_raw"); }
   Args a0; a0.u[0] = in.pick({3, 2, 2}) == 0 ? in.u64() : in.flag() ? in.range(0, 300) : PALETTE[in.u8() & 7]; a0.u[1] = in.flag() ? in.range(0, 200) : in.u64(); a0.u[2] = in.flag() ? in.range(0, 40) : in.u64(); a0.s[0] = (int64_t)(in.flag() ? in.u64() : (uint64_t)in.srange(-300, 300)); a0.s[1] = 0;
   { uint64_t b = in.u64(); memcpy(&a0.d, &b, 8); if (!std::isfinite(a0.d)) a0.d = -2.75; } a0.base = (int)in.range(0, 255); a0.str = gen_string(in);
@@ -51,6 +63,9 @@ static void check(ByteSource& in, CaseInfo& ci) {
   size_t alloc0[5]; for (int k = 0; k < g.zo; k++) alloc0[k] = (size_t)aA.z[k]->_mp_alloc;
   ci.label(op->name); ci.d("%s pattern:", op->name); for (int k = 0; k < nzz; k++) ci.d(" z%d%s", vz[k], k < g.zo ? "(out)" : ""); for (int k = 0; k < nqq; k++) ci.d(" q%d%s", vq[k], k < g.qo ? "(out)" : ""); for (int k = 0; k < nff; k++) ci.d(" f%d%s", vf[k], k < g.fo ? "(out)" : "");
   if (ci.want_desc) for (int i = 0; i < nvz; i++) ci.desc += " z" + std::to_string(i) + "=" + show(zv[i], 40);
+  // in half of the cases the input-only mpz operands of the call with distinct variables are read-only views (see RoRegion)
+  RoRegion ro[5]; __mpz_struct rov[5]; bool use_ro = in.flag();
+  if (use_ro) { bool any = false; for (int k = g.zo; k < nzz; k++) { size_t n = zl(aR.z[k]); mp_limb_t* d = ro[k].make(aR.z[k]->_mp_d, n); if (!d) continue; rov[k]._mp_d = d; rov[k]._mp_size = aR.z[k]->_mp_size; rov[k]._mp_alloc = 0; aR.z[k] = &rov[k]; any = true; } if (any) ci.label("inputs_read_only"); }
   Res rA, rR; op->run(aR, rR); op->run(aA, rA);
   for (auto& sv : rA.sv) REQUIRE(sv.compare(0, 10, "ILL-FORMED") != 0, "%s: %s", op->name, sv.c_str());
   if (aliased) { ci.label(out_in ? "alias:output=input" : "alias:input=input"); ci.nontrivial = true; } else ci.label("alias:none_inputs_unchanged_only");
